@@ -90,6 +90,7 @@ type Interp struct {
 	ctx       *decisionCtx
 	ctxStack  []*decisionCtx
 	hasUnknown bool
+	pathUF     bool // the path condition mentions an uninterpreted function: a native run need not follow it
 	steps     int
 	callDepth int
 
@@ -160,6 +161,9 @@ func (in *Interp) freezeViolation(msg string) {
 
 func (in *Interp) addPC(c *Term, assert bool) {
 	in.pc = append(in.pc, c)
+	if c.ua {
+		in.pathUF = true
+	}
 	h := sha256.New()
 	h.Write(in.pcKey[:])
 	fmt.Fprintf(h, "%d", c.id)
